@@ -333,3 +333,26 @@ def reduced_limb_rule(prog, chk, rule, names, floor=1):
                    "its own reduction is never propagated, the packing overlaps the next limb" % (d["op"], f.loc(v)),
                    key="%s %s limb@%d" % (rule, name, min(limbs[v])))
     chk.floor(rule, "limbs packed into scalar encodings", n, floor)
+
+
+def lossless_trunc_rule(prog, chk, rule, functions, floor=1):
+    """comparison predicates accumulate differences and test the accumulator for zero: a narrowing on the way may only drop bits
+    that are known to be zero (E12), otherwise part of every word stops taking part in the comparison. functions: [(name, unit
+    substring or None)]"""
+    n = 0
+    for name, usub in functions:
+        for f in [g for g in prog.functions() if not g.decl and g.sname == name and (usub is None or usub in g.unit)]:
+            zero = analyse(f)
+            for i, ins in enumerate(f.insts):
+                if ins["op"] != "trunc" or not ins["ty"][1:].isdigit() or not ins.get("srcbits"):
+                    continue
+                n += 1
+                sb, db = ins["srcbits"], int(ins["ty"][1:])
+                src = ins["ops"][0]
+                z = zero.get(src[1], 0) if src[0] == "v" else (~src[1] & ((1 << sb) - 1) if src[0] == "i" else 0)
+                dropped = ((1 << sb) - 1) & ~((1 << db) - 1)
+                ok = (z & dropped) == dropped
+                chk.ob(rule, f, "narrowing from %d to %d bits at %s drops only bits that are always zero" % (sb, db, f.loc(i)), ok, loc=f.loc(i),
+                       detail="" if ok else "the upper %d bits of the accumulated difference are dropped before the zero test: inputs that "
+                       "differ from the reference only there compare as equal" % (sb - db), key="%s %s trunc" % (rule, name))
+    chk.floor(rule, "narrowings in comparison predicates", n, floor)
